@@ -88,7 +88,19 @@ func (h *EndSrv) Sub(ctx context.Context, id int) (<-chan int, error) {
 	return out, nil
 }
 
+// LateSub returns its channel only after waiting (so the registration of the channel races
+// the end of the connection).
+func (h *EndSrv) LateSub(ctx context.Context, id int) (<-chan int, error) {
+	h.enter("latestream", ctx)
+	defer h.leave("latestream")
+	h.wait("latestream", ctx)
+	out := make(chan int)
+	close(out)
+	return out, nil
+}
+
 type EndCli struct {
+	LateSub  func(ctx context.Context, id int) (<-chan int, error)
 	Hold     func(ctx context.Context, tok int) (int, error)
 	HoldBig  func(ctx context.Context, tok int) (string, error)
 	HoldNote func(ctx context.Context, tok int) error `notify:"true"`
@@ -104,7 +116,7 @@ func init() {
 		Params: func(tier string) []Param {
 			var ps []Param
 			causes := []string{"close", "fin", "rst", "srvctx"}
-			mixes := []string{"unary", "notify", "stream", "big"}
+			mixes := []string{"unary", "notify", "stream", "big", "latestream"}
 			b := 1
 			if tier == "thorough" {
 				b = 2
@@ -218,6 +230,15 @@ func connendBody(s *vsched.Sched, p Param) {
 			s.Go("c-big", func() { _, err := cli.HoldBig(context.Background(), 2); obs.Set("ret-big", "%s", errClass(err)) })
 		case "notify":
 			s.Go("c-notify", func() { err := cli.HoldNote(context.Background(), 3); obs.Set("ret-notify", "%s", errClass(err)) })
+		case "latestream":
+			s.Go("c-latestream", func() {
+				ch, err := cli.LateSub(subCtx, 2)
+				obs.Set("ret-latestream", "%s", errClass(err))
+				if err == nil && ch != nil {
+					for range ch {
+					}
+				}
+			})
 		case "stream":
 			s.Go("c-stream", func() {
 				ch, err := cli.Sub(subCtx, 1)
